@@ -1,5 +1,6 @@
 SPECIFICATION GSpec
 CONSTANTS
   K = 25
+  Mode = "sim"
 INVARIANT Emit
 CHECK_DEADLOCK FALSE
